@@ -687,8 +687,18 @@ fn op_parse(c: &Value) -> Value {
     e
 }
 
+thread_local! {
+    static CUR_FILE: RefCell<Option<String>> = RefCell::new(None);
+}
 fn run_case(c: &Value) -> Value {
-    vh_common::set_case(&c.to_string());
+    let cs = c.to_string();
+    // the case about to run, for the post-mortem of a process abort (allocation failure, ...)
+    CUR_FILE.with(|f| {
+        if let Some(p) = f.borrow().as_ref() {
+            let _ = std::fs::write(p, &cs);
+        }
+    });
+    vh_common::set_case(&cs);
     match c["op"].as_str().unwrap_or("") {
         "pair" => op_pair(c),
         "snap" => op_snap(c),
@@ -1042,6 +1052,7 @@ fn main() {
     let cmd = args.get(1).map(|s| s.as_str()).unwrap_or("");
     match cmd {
         "run" => {
+            CUR_FILE.with(|f| *f.borrow_mut() = Some(format!("{}.cur", &args[2])));
             let mut out = std::io::BufWriter::new(std::fs::File::create(&args[2]).unwrap());
             let stdin = std::io::stdin();
             let mut n = 0usize;
@@ -1052,6 +1063,9 @@ fn main() {
                 } else if line.starts_with('{') {
                     serde_json::from_str(&line).ok()
                 } else {
+                    if line.starts_with("Error") || line.contains("Exception") {
+                        println!("TLC: {}", line);
+                    }
                     None
                 };
                 if let Some(c) = case {
@@ -1067,6 +1081,7 @@ fn main() {
             let fam = args[2].as_str();
             let seed: u64 = args[3].parse().unwrap();
             let n: usize = args[4].parse().unwrap();
+            CUR_FILE.with(|f| *f.borrow_mut() = Some(format!("{}.cur", &args[5])));
             let mut out = std::io::BufWriter::new(std::fs::File::create(&args[5]).unwrap());
             let mut r = StdRng::seed_from_u64(seed);
             for _ in 0..n {
@@ -1084,6 +1099,7 @@ fn main() {
         "one" => {
             let v: Value = serde_json::from_str(&std::fs::read_to_string(&args[2]).unwrap()).unwrap();
             let c = if v.get("replay").is_some() { v["replay"].clone() } else { v };
+            CUR_FILE.with(|f| *f.borrow_mut() = Some(format!("{}.cur", &args[3])));
             let mut out = std::io::BufWriter::new(std::fs::File::create(&args[3]).unwrap());
             let e = run_case(&c);
             emit(&mut out, &e);
